@@ -58,7 +58,7 @@ TInit ==
   /\ l = 1 /\ div = <<>> /\ ndiv = 0 /\ nsteps = 0 /\ viol = {}
   /\ lst = [n \in Honest |-> InitLst]
   /\ have = [n \in Honest |-> {}]
-  /\ seen = [n \in Honest |-> [votes |-> {}, tos |-> {}]]
+  /\ seen = [n \in Honest |-> [votes |-> {}, tos |-> {}, qok |-> {}, qbad |-> {}]]
   /\ mp = [n \in Honest |-> [own |-> {}, acks |-> {}, rel |-> {}]]
 
 -----------------------------------------------------------------------------
@@ -173,7 +173,16 @@ SeenAfter(n, e) ==
       v1 == IF e.k = "Vote" /\ e.ok THEN seen[n].votes \cup {<<B(e.in.blk), e.in.author>>} ELSE seen[n].votes
       t1 == IF e.k = "Timeout" /\ e.ok THEN seen[n].tos \cup {<<e.in.round, e.in.author, e.in.hqr>>} ELSE seen[n].tos
   IN [votes |-> v1 \cup {<<B(vs[i].blk), n>> : i \in 1..Len(vs)},
-      tos   |-> t1 \cup {<<ts[i].round, n, Rnd(B(ts[i].hq))>> : i \in 1..Len(ts)}]
+      tos   |-> t1 \cup {<<ts[i].round, n, Rnd(B(ts[i].hq))>> : i \in 1..Len(ts)},
+      \* C05 ("certified"): the harness inspects every proposal that travels to a real node (`in.qc_ok`: the QC is the exact genesis QC or a
+      \* certificate of the parent's round that verifies under the committee); remembered per node and block
+      qok  |-> IF e.k = "Propose" /\ "qc_ok" \in DOMAIN e.in /\ e.in.qc_ok THEN seen[n].qok \cup {e.in.blk} ELSE seen[n].qok,
+      qbad |-> IF e.k = "Propose" /\ "qc_ok" \in DOMAIN e.in /\ ~e.in.qc_ok THEN seen[n].qbad \cup {e.in.blk} ELSE seen[n].qbad]
+\* a block whose processing triggers a commit must have reached the node with a valid certificate at least once
+CertifiedViol(n, e) ==
+  LET sa == SeenAfter(n, e) IN
+  IF LoggedKinds(e, "commit") # <<>> /\ e.k \in {"Propose", "Loopback"} /\ e.in.blk \in sa.qbad \ sa.qok
+  THEN {<<"C05.CommitTriggeredByCertifiedBlock", l>>} ELSE {}
 CertViol(n, e) ==
   LET sa == SeenAfter(n, e)  qcs == LoggedKinds(e, "qc")  tcl == LoggedKinds(e, "tcmade") IN
   (IF \A i \in 1..Len(qcs) : LET S == SetOfSeq(qcs[i].signers) IN
@@ -198,7 +207,7 @@ CoreStep(e) ==
              ELSE ns' = [ns EXCEPT ![n] = Resync(pred, e)] /\ Diverge(e.k)
      /\ Observe(n, e)
      /\ nsteps' = nsteps + 1
-     /\ viol' = viol \cup Lim(AvailViol(n, e) \cup CertViol(n, e))
+     /\ viol' = viol \cup Lim(AvailViol(n, e) \cup CertViol(n, e) \cup CertifiedViol(n, e))
      /\ seen' = [seen EXCEPT ![n] = SeenAfter(n, e)]
      /\ UNCHANGED <<proposals, votes, timeouts, tcs, have, mp>>
 
@@ -257,7 +266,7 @@ Reset ==
   /\ hist' = [n \in Honest |-> InitHist]
   /\ lst' = [n \in Honest |-> InitLst]
   /\ have' = [n \in Honest |-> {}]
-  /\ seen' = [n \in Honest |-> [votes |-> {}, tos |-> {}]]
+  /\ seen' = [n \in Honest |-> [votes |-> {}, tos |-> {}, qok |-> {}, qbad |-> {}]]
   /\ mp' = [n \in Honest |-> [own |-> {}, acks |-> {}, rel |-> {}]]
   /\ UNCHANGED <<div, ndiv, nsteps>>
 
